@@ -72,9 +72,20 @@ def run(ctx):
             r2.violation(key + " path", "sink path does not derive from self.dest.join(..): %s" % show(s.expr[2][0], 80), s.loc)
             continue
         guarded = None
-        for (node, why) in checks:
+        checked = None
+        for (node, why, cv_) in checks:
             if node in fl.dom_edges(s.bb):
                 guarded = why
+                checked = cv_
+        # what is joined to dest is the value that was checked: every join feeding a sink takes an argument derived from the checked local (a
+        # second, unchecked rendering of the same Content-Location - e.g. its percent-decoded form - is a different path)
+        if guarded and checked is not None:
+            iters_ = set(z for z in checked)
+            bad_j = [j for j in joins if not any(("var:" + cv_) in sl.sources(j.expr[2][1], control=False) for cv_ in iters_)]
+            if bad_j:
+                r2.violation(key, "the path joined to dest (%s) is not derived from the value the confinement check looked at (%s): the check passes on one "
+                                  "rendering of the Content-Location and another one is written" % (show(bad_j[0].expr[2][1], 80), sorted(iters_)), s.loc)
+                continue
         if guarded:
             r2.ok(key, "dominated by: " + guarded, s.loc)
         else:
@@ -200,11 +211,12 @@ def confinement_checks(prog, f, fl, sl, rel_srcs):
                             isany = it[1].endswith("any")
                             # any(bad) must be false ; all(good) must be true
                             if (isany and verdict == "true_iff_bad" and tr is False) or ((not isany) and verdict == "true_iff_good" and tr is True):
-                                out.append((n, "Path::components() of the relative path: every component is Normal/CurDir (%s)" % ("!any(bad)" if isany else "all(good)")))
+                                cv_ = set(z[4:] for z in sl.sources(it[2][0], control=False) if z.startswith("var:") and re.match(r"^var:\w+(~\d+)?$", z))
+                                out.append((n, "Path::components() of the relative path: every component is Normal/CurDir (%s)" % ("!any(bad)" if isany else "all(good)"), cv_))
                 # idiom (ii): canonicalize + starts_with(dest)
                 if any(z.endswith("Path::starts_with") or z.endswith("PathBuf::starts_with") for z in srcs if z.startswith("call:")) and \
                         any(z.endswith("canonicalize") for z in srcs if z.startswith("call:")) and any(z.startswith("var:self.dest") for z in srcs) and tr is True:
-                    out.append((n, "canonicalize(..).starts_with(dest)"))
+                    out.append((n, "canonicalize(..).starts_with(dest)", None))
     # idiom (iii): the same test as an explicit loop - `for c in Path::new(rel).components() { match c { Normal(_) | CurDir => {}, _ => { reject } } }`:
     # the sink is only reached through the loop's normal end (the `None` edge of next()), and no path from an edge on which the component may be
     # ParentDir / RootDir / Prefix ever gets back to that normal end
@@ -251,7 +263,8 @@ def confinement_checks(prog, f, fl, sl, rel_srcs):
             continue
         if all(not (set(none_edges) & fl.reach(b)) for b in bad_edges):
             for ne in none_edges:
-                out.append((ne, "loop over Path::components() of the relative path: a component other than Normal/CurDir never reaches the loop's normal end"))
+                cv_ = set(z[4:] for z in isrcs if z.startswith("var:") and re.match(r"^var:\w+(~\d+)?$", z))
+                out.append((ne, "loop over Path::components() of the relative path: a component other than Normal/CurDir never reaches the loop's normal end", cv_))
     return out
 
 
